@@ -471,6 +471,32 @@ def correspond(ctx, facts, batch):
                                   (which, m.t.shape[1], len(pts), r[0])))
             batch.add(f'finder_{which}', IMPORTS, f'run_{which}', 'onats_eqb', cases, defs=MESH_DEFS, per_file=ctx.n(20, 40),
                       nontrivial=lambda r: r[2] >= 2 or r[3] == 'raises')
+    # ---- layout of the split connectivity: the real to_meshtri / to_meshtet table vs the regenerated layout function
+    batch.req = ['gen/C14GenSplits.v']
+    cases = []
+    for which in ('quad', 'hex', 'wedge'):
+        for _ in range(ctx.n(3, 8)):
+            m = tensor_mesh(rng, which, shear=False)
+            m = type(m)(m.p, m.t[:, rng.sample(range(m.t.shape[1]), m.t.shape[1])])        # any cell order
+            ms = m.to_meshtri() if which == 'quad' else m.to_meshtet()
+            ts = type(ms).__mro__[0]
+            # MeshTri1 sorts its connectivity: compare the vertex SETS of every simplex (sorted columns)
+            real = np.sort(ms.t, axis=0)
+            tenc = clist([clist([cnat(v) for v in row]) for row in m.t])
+            cases.append((f'({cnat({"quad": 0, "hex": 1, "wedge": 2}[which])}, {tenc})',
+                          clist([clist([cnat(v) for v in col]) for col in real.T]), ('split-layout', which, m.t.shape[1], ts.__name__)))
+    defs = ('''
+Fixpoint insert_nat (a : nat) (l : list nat) : list nat := match l with [] => [a] | b :: t => if a <=? b then a :: l else b :: insert_nat a t end.
+Definition sort_nats (l : list nat) : list nat := fold_right insert_nat [] l.
+Definition run_layout (a : nat * list (list nat)) : list (list nat) :=
+  let '(w, t) := a in let nt := length (nth 0 t []) in
+  let sels := match w with 0 => gen_quad_sels | 1 => gen_hex_sels | _ => gen_wedge_sels end in
+  let lay := match w with 0 => gen_quad_layout | 1 => gen_hex_layout | _ => gen_wedge_layout end in
+  map (fun k => let bc := lay nt k in sort_nats (map (fun v => nth (snd bc) (nth v t []) 0) (nth (fst bc) sels [])))
+      (seq 0 (length sels * nt)).
+''')
+    batch.add('split_layout', 'From Coq Require Import List Arith Bool.\nRequire Import Model.C14_Finder Gen.C14GenSplits.\nImport ListNotations.\n',
+              'run_layout', 'natss_eqb', cases, defs=defs, nontrivial=lambda r: r[2] >= 2)
     # ---- 1-D finder: exact on every kind of point
     batch.req = []
     cases = []
